@@ -24,6 +24,30 @@ Theorem C17_dpseg_options_declared : forall n k, In (n, k) dp_py_rows ->
 Proof. exact (dp_table_ok_spec _ _ C17_dpseg_option_table_ok). Qed.
 Print Assumptions C17_dpseg_options_declared.
 
+(* which option values the commands leave out of the program's argument string (conditions regenerated
+   from ag._command_line_arguments and dpseg.main): wordseg-ag skips exactly the unset options and unset
+   flags - in particular no number, 0 included (fix ad98cf9; with "v in (None, False)" this fails:
+   Cli.Options.in_none_false_skips_zero) *)
+Theorem C17_ag_skips_only_unset : forall v, eval_cond ag_skip_cond v = true <-> v = PNone \/ v = PBool false.
+Proof. intros v; split; [skip_cases v | intros [-> | ->]; reflexivity]. Qed.
+Print Assumptions C17_ag_skips_only_unset.
+
+(* wordseg-dpseg skips exactly the unset options (a False flag is formatted and removed afterwards) *)
+Theorem C17_dpseg_skips_only_none : forall v, eval_cond dp_skip_cond v = true <-> v = PNone.
+Proof. intros v; split; [skip_cases v | intros ->; reflexivity]. Qed.
+Print Assumptions C17_dpseg_skips_only_none.
+
+Theorem C17_zero_reaches_the_programs : forall q,
+  eval_cond ag_skip_cond (PNum q) = false /\ eval_cond dp_skip_cond (PNum q) = false.
+Proof.
+  intros q. split.
+  - destruct (eval_cond ag_skip_cond (PNum q)) eqn:E; [|reflexivity].
+    apply C17_ag_skips_only_unset in E. destruct E; discriminate.
+  - destruct (eval_cond dp_skip_cond (PNum q)) eqn:E; [|reflexivity].
+    apply C17_dpseg_skips_only_none in E. discriminate.
+Qed.
+Print Assumptions C17_zero_reaches_the_programs.
+
 (* (b) which errors the function models can report: the commands turn ValueError / RuntimeError
    into a one-line fatal error; the classifications below say when nothing else can be raised *)
 Theorem C17_evaluate_errors : forall text gold u e, evaluate text gold u = Raise e -> e = ValueError.
